@@ -261,6 +261,10 @@ func (opts *ParseRealtimeOptions) timezoneOrUTC() *time.Location {
 }
 
 func ParseRealtime(content []byte, opts *ParseRealtimeOptions) (*Realtime, error) {
+	// Work on a copy of the options so that the caller's value is never written to;
+	// it may be shared between concurrent calls.
+	optsCopy := *opts
+	opts = &optsCopy
 	if opts.Extension == nil {
 		opts.Extension = extensions.NoExtension()
 	}
